@@ -169,7 +169,7 @@ def run(run):
         for label, fn in (("remove_nonexisting_indirect_jump_targets", F.fn("remove_nonexisting_indirect_jump_targets", adt="Term")),
                           ("generate_sub_tid_to_contained_block_tids_map", F.fn("generate_sub_tid_to_contained_block_tids_map", adt="Project")),
                           ("append_jump_targets_with_sub_suffix_when_target_block_was_duplicated", group[2][1])):
-            hit = any(n.get("k") == "Field" and n.get("fn") == "indirect_jmp_targets" for n in T.walk_fn(F, fn)) or any(
+            hit = any(n.get("k") == "Field" and n.get("fn") == "indirect_jmp_targets" for n in T.walk_deep(F, fn["body"], 2)) or any(
                 isinstance(q.get("sub"), list) and any(s_.get("f") == "indirect_jmp_targets" and T.pat_peel(s_["p"]).get("k") != "Wild" for s_ in q["sub"])
                 for pat, scrut, owner in SL.fn_patterns(F, fn) for q in walk_pat(pat))
             run.check("R1", "%s|Blk.indirect_jmp_targets" % label, hit, "%s ignores Blk.indirect_jmp_targets, which the sibling passes treat as block targets" % label, F.loc(fn["body"]))
